@@ -85,10 +85,36 @@ pub enum Cur {
 }
 impl Default for Cur { fn default() -> Self { Cur::None } }
 
+use crate::mock::*;
+use fastcgi_server::async_io::{Request as AReq, StreamWriter};
+use futures_util::io::{AsyncBufRead, AsyncRead, AsyncWrite};
+use std::future::Future;
+use std::pin::Pin;
+use std::sync::{Arc, Mutex};
+use std::task::{Context, Poll};
+
+type Req = AReq<'static, MockR, MockW>;
+type CloseFut = Pin<Box<dyn Future<Output = std::io::Result<(request::Parser<'static>, MockR, MockW)>>>>;
+type WFut = Pin<Box<dyn Future<Output = std::io::Result<()>>>>;
+
+#[derive(Default)]
+pub struct AState {
+    pub req: Option<Box<Req>>,
+    pub writers: Vec<Option<StreamWriter<MockW>>>,
+    pub shared: Option<Arc<Mutex<Shared>>>,
+    pub wfut: Option<WFut>,
+    pub close: Option<CloseFut>,
+    pub wlog_seen: usize,
+    pub writeable_last: String,
+}
+
 #[derive(Default)]
 pub struct Impl {
     pub cur: Cur,
+    pub a: AState,
 }
+fn kv<'a>(args: &'a [&'a str], key: &str) -> Option<&'a str> { args.iter().find_map(|a| a.strip_prefix(key).and_then(|r| r.strip_prefix('='))) }
+
 
 pub fn perr(e: &parser::Error) -> String {
     use parser::Error::*;
@@ -123,6 +149,18 @@ fn pairs_str(ps: &[(Vec<u8>, Vec<u8>)]) -> String {
 impl Impl {
     pub fn new() -> Self { Self::default() }
 
+    /// observation suffix shared by all `a.*` ops: writeable flag, transport events, bytes written during the op
+    fn a_suffix(&mut self) -> String {
+        let w = match (&self.a.req, &self.a.wfut) { (Some(r), None) => { let s = r.is_writeable().to_string(); self.a.writeable_last = s.clone(); s }
+                                                     (Some(_), Some(_)) => "?".into(), _ => "-".into() };
+        let Some(sh) = &self.a.shared else { return format!(" w={w} ev=- wd=-") };
+        let mut s = sh.lock().unwrap();
+        let ev = if s.events.is_empty() { "-".to_string() } else { s.events.join(",") };
+        s.events.clear();
+        let wd = hexd(&s.wlog[self.a.wlog_seen..]);
+        self.a.wlog_seen = s.wlog.len();
+        format!(" w={w} ev={ev} wd={wd}")
+    }
     /// Executes one op; a panic inside the crate is an observation (`panic <msg>`).
     pub fn exec(&mut self, line: &str) -> String {
         if line.starts_with('#') { return line.to_string(); }
@@ -415,6 +453,143 @@ impl Impl {
                 let order: Vec<(Vec<u8>, Vec<u8>)> = resp.headers().iter().map(|(n, v)| (n.as_str().as_bytes().to_vec(), v.as_bytes().to_vec())).collect();
                 if order != hdrs { return Some("order-differs".into()); }
                 sink_run(cap, |w| fastcgi_server::cgi::response::http_headers(w, &resp))?
+            }
+
+            ["a.new", b, mc, id, role, flags, rest @ ..] => {
+                let inp = unhex(kv(rest, "in")?);
+                let la: usize = kv(rest, "la")?.parse().ok()?;
+                let end = match kv(rest, "end")? { "eof" => EndMode::Eof, "pend" => EndMode::Pend, _ => EndMode::Err };
+                let cfg: &'static Config = Box::leak(Box::new(config(b.parse().ok()?, mc.parse().ok()?)));
+                let rid: u16 = id.parse().ok()?;
+                let mut rp = request::Parser::new(cfg);
+                let mut pre = fcgi::body::BeginRequest { role: fcgi::Role::try_from(role.parse::<u16>().ok()?).ok()?, flags: fcgi::RequestFlags::from(flags.parse::<u8>().ok()?) }.to_record(rid).to_vec();
+                pre.extend(fcgi::RecordHeader::new(fcgi::RecordType::Params, rid).to_bytes());
+                pre.extend(&inp[..la]);
+                let buf = rp.input_buffer();
+                if pre.len() > buf.len() { return Some("panic".into()); }
+                buf[..pre.len()].copy_from_slice(&pre);
+                let _ = rp.parse(pre.len());
+                match rp.into_stream_parser() {
+                    Ok(sp) => {
+                        let active = opt_stream(sp.active_stream());
+                        let sh = Shared::new(&inp[la..], end, parse_rd(kv(rest, "rd")?), parse_wr(kv(rest, "wr")?), parse_fl(kv(rest, "fl")?));
+                        let req = Box::new(AReq::new(sp, MockR(sh.clone()), MockW(sh.clone())));
+                        self.a = AState { req: Some(req), shared: Some(sh), ..Default::default() };
+                        format!("ok active={active}{}", self.a_suffix())
+                    }
+                    Err(e) => format!("err {}", perr(&e)),
+                }
+            }
+            ["a.read", n] => {
+                if self.a.wfut.is_some() || self.a.close.is_some() { return Some("busy".into()); }
+                let Some(req) = self.a.req.as_mut() else { return Some("busy".into()) };
+                let mut buf = vec![0u8; n.parse().ok()?];
+                let w = futures_util::task::noop_waker(); let mut cx = Context::from_waker(&w);
+                let r = catch(|| Pin::new(&mut **req).poll_read(&mut cx, &mut buf));
+                let o = match r { Err(_) => "panic".to_string(), Ok(Poll::Pending) => "pending".into(), Ok(Poll::Ready(Ok(k))) => format!("ready {k} {}", hexd(&buf[..k])), Ok(Poll::Ready(Err(e))) => format!("err {}", io_kind(&e)) };
+                format!("{o}{}", self.a_suffix())
+            }
+            ["a.fill"] => {
+                if self.a.wfut.is_some() || self.a.close.is_some() { return Some("busy".into()); }
+                let Some(req) = self.a.req.as_mut() else { return Some("busy".into()) };
+                let w = futures_util::task::noop_waker(); let mut cx = Context::from_waker(&w);
+                let r = catch(|| match Pin::new(&mut **req).poll_fill_buf(&mut cx) { Poll::Pending => None, Poll::Ready(Ok(b)) => Some(Ok(b.to_vec())), Poll::Ready(Err(e)) => Some(Err(e)) });
+                let o = match r { Err(_) => "panic".to_string(), Ok(None) => "pending".into(), Ok(Some(Ok(b))) => format!("ready {} {}", b.len(), hexd(&b)), Ok(Some(Err(e))) => format!("err {}", io_kind(&e)) };
+                format!("{o}{}", self.a_suffix())
+            }
+            ["a.consume", k] => {
+                if self.a.wfut.is_some() || self.a.close.is_some() { return Some("busy".into()); }
+                let Some(req) = self.a.req.as_mut() else { return Some("busy".into()) };
+                Pin::new(&mut **req).consume(k.parse().ok()?);
+                format!("ok{}", self.a_suffix())
+            }
+            ["a.set_stream", t] => {
+                if self.a.wfut.is_some() || self.a.close.is_some() { return Some("busy".into()); }
+                let Some(req) = self.a.req.as_mut() else { return Some("busy".into()) };
+                let ty = fcgi::RecordType::try_from(t.parse::<u8>().ok()?).ok()?;
+                let o = match catch(|| req.set_stream(ty)) { Ok(()) => format!("ok active={}", opt_stream(req.active_stream())), Err(_) => "panic".into() };
+                format!("{o}{}", self.a_suffix())
+            }
+            ["a.writeable"] => {
+                if self.a.close.is_some() { return Some("busy".into()); }
+                let Some(req) = self.a.req.as_mut() else { return Some("busy".into()) };
+                if self.a.wfut.is_none() {
+                    // the future borrows the boxed request; it is dropped before the request is touched again
+                    let ptr: *mut Req = &mut **req;
+                    let fut: WFut = Box::pin(unsafe { &mut *ptr }.writeable());
+                    self.a.wfut = Some(fut);
+                }
+                let w = futures_util::task::noop_waker(); let mut cx = Context::from_waker(&w);
+                let fut = self.a.wfut.as_mut().unwrap();
+                let r = catch(|| fut.as_mut().poll(&mut cx));
+                let o = match r { Err(_) => { self.a.wfut = None; "panic".to_string() } Ok(Poll::Pending) => "pending".into(),
+                    Ok(Poll::Ready(Ok(()))) => { self.a.wfut = None; "ready".into() } Ok(Poll::Ready(Err(e))) => { self.a.wfut = None; format!("err {}", io_kind(&e)) } };
+                format!("{o}{}", self.a_suffix())
+            }
+            ["a.open", t] => {
+                let Some(req) = self.a.req.as_ref() else { return Some("busy".into()) };
+                let ty = fcgi::RecordType::try_from(t.parse::<u8>().ok()?).ok()?;
+                let o = match catch(|| req.output_stream(ty)) { Ok(w) => { self.a.writers.push(Some(w)); format!("w{}", self.a.writers.len() - 1) } Err(_) => "panic".into() };
+                format!("{o}{}", self.a_suffix())
+            }
+            ["a.clone", i] => {
+                let idx: usize = i.parse().ok()?;
+                let Some(Some(w)) = self.a.writers.get(idx) else { return Some("no-writer".into()) };
+                let c = w.clone();
+                self.a.writers.push(Some(c));
+                format!("w{}{}", self.a.writers.len() - 1, self.a_suffix())
+            }
+            ["a.wpoll", i, h] => {
+                let idx: usize = i.parse().ok()?;
+                let buf = unhex(h);
+                let Some(Some(wr)) = self.a.writers.get_mut(idx) else { return Some("no-writer".into()) };
+                let w = futures_util::task::noop_waker(); let mut cx = Context::from_waker(&w);
+                let r = catch(|| Pin::new(&mut *wr).poll_write(&mut cx, &buf));
+                let o = match r { Err(_) => "panic".to_string(), Ok(Poll::Pending) => "pending".into(), Ok(Poll::Ready(Ok(k))) => format!("ready {k}"), Ok(Poll::Ready(Err(e))) => format!("err {}", io_kind(&e)) };
+                format!("{o}{}", self.a_suffix())
+            }
+            ["a.fpoll", i] => {
+                let idx: usize = i.parse().ok()?;
+                let Some(Some(wr)) = self.a.writers.get_mut(idx) else { return Some("no-writer".into()) };
+                let w = futures_util::task::noop_waker(); let mut cx = Context::from_waker(&w);
+                let r = catch(|| Pin::new(&mut *wr).poll_flush(&mut cx));
+                let o = match r { Err(_) => "panic".to_string(), Ok(Poll::Pending) => "pending".into(), Ok(Poll::Ready(Ok(()))) => "ready".into(), Ok(Poll::Ready(Err(e))) => format!("err {}", io_kind(&e)) };
+                format!("{o}{}", self.a_suffix())
+            }
+            ["a.drop", i] => {
+                let idx: usize = i.parse().ok()?;
+                let Some(slot) = self.a.writers.get_mut(idx) else { return Some("no-writer".into()) };
+                if slot.is_none() { return Some("no-writer".into()); }
+                *slot = None;
+                format!("ok{}", self.a_suffix())
+            }
+            ["a.close", k, c] => {
+                if self.a.wfut.is_some() { return Some("busy".into()); }
+                if self.a.close.is_none() {
+                    let Some(req) = self.a.req.take() else { return Some("busy".into()) };
+                    let code: u32 = c.parse().ok()?;
+                    let st = match *k { "complete" => ExitStatus::Complete(code), "overloaded" => ExitStatus::Overloaded, "unknownrole" => ExitStatus::UnknownRole, "abort" => ExitStatus::ABORT, _ => return None };
+                    self.a.writeable_last = "-".into();
+                    self.a.close = Some(Box::pin((*req).close(st)));
+                }
+                let w = futures_util::task::noop_waker(); let mut cx = Context::from_waker(&w);
+                let fut = self.a.close.as_mut().unwrap();
+                let r = catch(|| fut.as_mut().poll(&mut cx));
+                match r {
+                    Err(_) => { self.a.close = None; format!("panic{}", self.a_suffix()) }
+                    Ok(Poll::Pending) => format!("pending{}", self.a_suffix()),
+                    Ok(Poll::Ready(Err(e))) => { self.a.close = None; format!("err {}{}", io_kind(&e), self.a_suffix()) }
+                    Ok(Poll::Ready(Ok((mut rp, _r, _w)))) => {
+                        self.a.close = None;
+                        let free = rp.input_buffer().len();
+                        // leftover input handed to the next request parser is observable as capacity minus free; its content
+                        // is exposed by the following req.* ops
+                        let o = format!("reuse free={free}");
+                        let suf = self.a_suffix();
+                        self.cur = Cur::Req(rp);
+                        format!("{o}{suf}")
+                    }
+                }
             }
             _ => return None,
         })
